@@ -251,10 +251,20 @@ Proof. intros o. unfold validate_as_txt. destruct o as [|c t]; [eauto|]. apply v
 
 (* ---- \# RDATA ---------------------------------------------------------------------------------------- *)
 
+Lemma safe_hex_digit_of d : safe false (hex_digit_of d) (fun _ => True).
+Proof. unfold hex_digit_of. destruct (hex_nibble d); [apply safe_ret; exact I|apply safe_failHere]. Qed.
+
 Lemma safe_parse_ascii_hex_digit : safe false parse_ascii_hex_digit (fun _ => True).
 Proof.
   unfold parse_ascii_hex_digit. sbind; [apply safe_read_field_octet|]. intros [d|] _; [|apply safe_failHere].
-  destruct (hex_nibble d); [apply safe_ret; exact I|apply safe_failHere].
+  apply safe_hex_digit_of.
+Qed.
+
+Lemma safe_parse_leading_hex_digit : safe false parse_leading_ascii_hex_digit (fun _ => True).
+Proof.
+  unfold parse_leading_ascii_hex_digit. sbind; [apply safe_getpos|]. intros position _.
+  sbind; [apply safe_read_field_octet|]. intros [d|] _; [apply safe_hex_digit_of|].
+  sbind; [apply safe_to|]. intros [|] _; [apply safe_parse_ascii_hex_digit|apply safe_failM].
 Qed.
 
 Lemma rev_fast_length {A} (l : list A) : length (rev_fast l) = length l.
@@ -264,7 +274,7 @@ Lemma hex_loop_safe : forall n acc, safe false (hex_loop n acc) (fun d => length
 Proof.
   induction n as [|n IH]; intros acc; cbn [hex_loop].
   - apply safe_ret. apply rev_fast_length.
-  - sbind; [apply safe_parse_ascii_hex_digit|]. intros h _.
+  - sbind; [apply safe_parse_leading_hex_digit|]. intros h _.
     sbind; [apply safe_parse_ascii_hex_digit|]. intros l _.
     eapply safe_weaken; [apply IH|]. intros d Hd. rewrite Hd. simpl. lia.
 Qed.
